@@ -8,16 +8,17 @@ import os
 import random
 import shutil
 import tempfile
+import warnings
 
 import common as C
 
 PID = "C08"
 DRIVER = [("C08", "TfPwaV.Model.FitF", "FitF.handle"), ("C08b", "TfPwaV.Gen.FitImproveF", "FitImproveF.handle")]
-LEAN_TARGETS = ["TfPwaV.Props.C08", "TfPwaV.Model.FitF", "TfPwaV.Props.C08b", "TfPwaV.Gen.FitImproveF"]
-PROP_MODULES = ["TfPwaV.Props.C08", "TfPwaV.Props.C08b"]
+LEAN_TARGETS = ["TfPwaV.Props.C08", "TfPwaV.Model.FitF", "TfPwaV.Props.C08b", "TfPwaV.Gen.FitImproveF", "TfPwaV.Props.C08c"]
+PROP_MODULES = ["TfPwaV.Props.C08", "TfPwaV.Props.C08b", "TfPwaV.Props.C08c"]
 ALL_MODULES = ["TfPwaV.Model.Vars", "TfPwaV.Model.VarsF", "TfPwaV.Model.Fit", "TfPwaV.Model.FitF", "TfPwaV.Proofs.Vars",
                "TfPwaV.Proofs.Fit", "TfPwaV.Proofs.FitR", "TfPwaV.Proofs.PolarBound", "TfPwaV.Props.C08",
-               "TfPwaV.Proofs.FitImprove", "TfPwaV.Props.C08b"]
+               "TfPwaV.Proofs.FitImprove", "TfPwaV.Props.C08b", "TfPwaV.Proofs.FitZ", "TfPwaV.Props.C08c"]
 ASSUMPTIONS = [
     "the minimiser (scipy.optimize.minimize, tf_pwa.fit_improve.minimize, iminuit.Minuit) is an oracle: an arbitrary finite list of evaluations, then an arbitrary answer (x, fun, success, with or without hess_inv) of the length of the free-parameter list, or LargeNumberError from the callback; nothing about convergence is assumed or proved",
     "min_nll = NLL(params), min_nll <= NLL(start) and 'bounded parameters inside their bounds' for the branches that hand the bounds to the external optimiser (L-BFGS-B, iminuit limits) depend on the external optimiser: validated on the implementation (synthetic FCN with every method name + a small real model), not proved",
@@ -27,7 +28,9 @@ ASSUMPTIONS = [
     "'inside their bounds' is proved over the reals for the three built-in Bound transforms (C16 BoundR lemmas); on IEEE doubles the harness allows 4 ulp at an end point",
     "C08b (method 'test'): line_search_wolfe2 / scalar_search_wolfe2 / _zoom are an oracle of the Lean model; the contract (new_fval, gfkp1 belong to xk + alpha pk) and the Armijo inequalities assumed by result_point_consistent / nonmonotone_bound are CHECKED on every answer the real line search gives in the recorded runs, not proved; np.linalg.inv is an oracle (its answers are recorded and fed to the model); the dead values of fmin_bfgs_f (Aredk, Predk, rk, tk, ystark) are not modelled; only B0=None, norm_ord=Inf (what fit_scipy uses); theorems over the reals (no NaN): the NaN behaviour is covered by the Float execution and the search only",
     "C08b: Cached_FG's cache is keyed on the array object's VALUE at the time of the call: the theorems assume the caller does not mutate an array in place after passing it (fmin_bfgs_f and the line search always build new arrays xk + alpha*pk); -0.0 == 0.0 counts as the same point",
-    "standard_complex runs after remove_bound in fit_scipy, so polar components are standardised even when they are bounded or fixed: the theorems about fixed / bounded values are stated for parameters that are not the r/i component of a complex parameter; for components the complex value is preserved (C16 std_polar theorems)",
+    "standard_complex / set_bound exist in two variants each (Vars.Cfg.stdFree, Vars.Cfg.boundHead, Fit.Fix.stdBounded; false = the tree as it is, true = after fix_C08_standard_complex_free_only.diff / fix_C08_set_bound_free_name.diff / fix_C08_standard_complex_bounded.diff); the harness observes the variant on the real code in every run and drives the model with it. On the tree as it is standard_complex runs after remove_bound and standardises polar components even when they are fixed or were bounded: the C08 theorems about fixed / bounded values exclude r/i components there (refutations: C08.standard_complex_moves_fixed_polar, C08.standard_complex_ignores_removed_bounds, C08c.follower_bound_unrouted_is_dead); the C08c theorems hold for the repaired variants",
+    "C08c.bounded_inside_after_standardisation: the hypothesis Guarded (every complex parameter with a part on the bounded object has a part in a tie group or a part named in bounds_dict) is discharged by guarded_of_bounded_part when no OTHER complex parameter has an untied part on the same object - true for every state C16's set_same produces (two names share an object only through a tie group), assumed here; the L-BFGS-B / iminuit branches keep a bounded part inside its range only as far as the external optimiser does (validated)",
+    "C08c.follower_bound_applied: bound_name(bound_name(n)) = bound_name(n) and 'n is on the object of bound_name(n)' are hypotheses, discharged in follower_bound_applied_tied from the C16 tie invariant InvT (pairwise disjoint groups, members of a group of real names on one object), which C16c proves for well-separated histories; bounds named on a part of a complex parameter that is tied AS A WHOLE (set_same(cplx=True): the group lists the complex names, not the parts) are not routed by the patch and not covered",
 ]
 
 METHODS = {
@@ -343,7 +346,25 @@ def probe_vars_variant():
     vm.set("ci", 5.0)
     vm.std_polar("c")
     std = -math.pi <= float(vm.get("ci")) < math.pi
-    return {"fixSame": bool(merge and cplx), "fixStd": bool(std)}
+    # fix_C08_standard_complex_free_only.diff: standard_complex leaves a complex variable with a fixed part alone
+    vm = VarsManager(dtype="float64")
+    vm.add_complex_var("c", polar=True, trainable=False, fix_vals=(-1.0, 0.5))
+    vm.add_complex_var("d", polar=True)
+    vm.set("dr", -1.0)
+    vm.set("di", 0.5)
+    vm.set_fix("di")
+    vm.standard_complex()
+    std_free = float(vm.get("cr")) == -1.0 and float(vm.get("ci")) == 0.5 and float(vm.get("dr")) == -1.0 and float(vm.get("di")) == 0.5
+    # fix_C08_set_bound_free_name.diff: set_bound registers under the first entry of the tie group
+    vm = VarsManager(dtype="float64")
+    for n, v in zip("abc", [1.0, 1.0, 2.0]):
+        vm.add_real_var(n, v)
+    vm.set_same(["a", "b"])
+    with warnings.catch_warnings():
+        warnings.simplefilter("ignore")
+        vm.set_bound({"b": (0.5, 1.5), "c": (None, 3.0)})
+    bound_head = list(vm.bnd_dic) == ["a", "c"]
+    return {"fixSame": bool(merge and cplx), "fixStd": bool(std), "stdFree": bool(std_free), "boundHead": bool(bound_head)}
 
 
 def probe_fix():
@@ -383,6 +404,13 @@ def probe_fix():
         k, r = run_fit(fcn, "BFGS", b, jac=False)
     # after the evaluation at x = 0.3 the bounded p0 holds x2y(0.3) when the no-gradient objective is transformed
     out["nojacTrans"] = None if not fcn.trace else (abs(fcn.trace[0]["p0"] - 0.3) > 1e-9)
+    # fix_C08_standard_complex_bounded.diff: fit_scipy names its bounded parts to standard_complex.  The answer 0 for the
+    # phase z0i bounded to (3.3, 6.0) is stored as x2y(0) = 4.65; standard_complex() without the names wraps it to 4.65 - 2 pi
+    vm = S.build_vm(BOUND_PHASE_SPEC)
+    fcn = S.SynthFCN(vm, 78)
+    with scripted(Script([], [1.0, 1.0, 0.0], 1.0, True, True)):
+        k, r = run_fit(fcn, "BFGS", S.bounds_of(BOUND_PHASE_SPEC))
+    out["stdBounded"] = k == "ok" and 3.3 <= float(vm.variables["z0i"].numpy()) <= 6.0
     return out
 
 
@@ -403,10 +431,38 @@ def gen_script(rnd, spec, method, ntr):
     return Script(evals, x, round(rnd.uniform(-50, 50), 6), rnd.random() < 0.7, has_h, big)
 
 
-def eff_bnd(keys, spec):
+def eff_bnd(keys, spec, same=(), head=False):
     """registered names whose declared bound has at least one limit (an entry (None, None) is the identity: whether it is
-    registered is not observable in any value)"""
-    return [k for k in keys if k in spec["bounds"] and not (spec["bounds"][k][0] is None and spec["bounds"][k][1] is None)]
+    registered is not observable in any value); `head`: the tree registers a bound under the first entry of the tie group"""
+    eff = [k for k in spec["bounds"] if not (spec["bounds"][k][0] is None and spec["bounds"][k][1] is None)]
+    eff = set(route_bounds(eff, same, head))
+    return [k for k in keys if k in eff]
+
+
+def special_corr_specs():
+    """scenarios of the three C08 repairs (fixed / partly fixed polar parameters, bounded parts of polar parameters,
+    bounds named on tie followers), run through every branch in the correspondence with seeded scripted answers"""
+    part_fixed = copy.deepcopy(FIX_POLAR_SPEC)
+    part_fixed["fix"] = ["z0i"]
+    bound_r = copy.deepcopy(BOUND_PHASE_SPEC)
+    bound_r["bounds"] = {"z0r": [0.2, 3.0], "p0": [None, 2]}
+    both = copy.deepcopy(TIED_FOLLOWER_SPEC)
+    both["bounds"] = {"p0": [0.5, 1.5], "p2": [0, None], "p1": [0.9, 1.1]}
+    share = {"polar": True, "fix": [], "gauss": {}, "nll_seed": 81, "ties": [{"share": ["z0", "z1"]}], "bounds": {"z1r": [0.4, 2.0]},
+             "vars": [{"k": "real", "name": "p0", "value": 1.0, "free": True},
+                      {"k": "cplx", "name": "z0", "polar": True, "free": True, "vals": [1.0, 0.3]},
+                      {"k": "cplx", "name": "z1", "polar": True, "free": True, "vals": [1.0, 1.4]},
+                      {"k": "cplx", "name": "z2", "polar": True, "free": True, "vals": [0.7, -0.6]}]}
+    return [FIX_POLAR_SPEC, part_fixed, BOUND_PHASE_SPEC, bound_r, TIED_FOLLOWER_SPEC, both, share]
+
+
+def route_bounds(keys, same, head):
+    """names under which the declared bounds count: the tie group's first entry when the tree routes them (boundHead)"""
+    out = []
+    for k in keys:
+        g = [grp for grp in same if k in grp]
+        out.append(g[0][0] if (head and g) else k)
+    return out
 
 
 def correspond(ctx, res):
@@ -415,18 +471,25 @@ def correspond(ctx, res):
     ctx.fix = fix
     res.notes.append("observed variant of the tree (true = statement of the patched tree): %r" % fix)
     variant = probe_vars_variant()
+    ctx.variant = variant
+    res.notes.append("observed variant of VarsManager (Cfg flags of the Lean model): %r" % variant)
     n = 70 if ctx.quick else 600
     names = [m for m in METHODS]
     lines, cases = [], []
     branch_count = {}
-    for i in range(n):
+    special = [(sp, m) for sp in special_corr_specs() for m in (["BFGS", "CG", "L-BFGS-B", "Newton-CG", "iminuit"] + ([] if ctx.quick else ["trust-ncg-p", "test", "BFGS"]))]
+    for i in range(n + len(special)):
         rnd = random.Random(ctx.seed * 1000003 + i)
-        spec = gen_spec(rnd, wild=(i % 3 == 2))
-        if i < len(names):
-            method = names[i]
+        if i >= n:
+            spec, method = special[i - n]
+            spec = copy.deepcopy(spec)
         else:
-            cls = rnd.choice(["quasi", "quasi", "lbfgsb", "newton", "newton", "minuit"])
-            method = rnd.choice([m for m in names if METHODS[m] == cls])
+            spec = gen_spec(rnd, wild=(i % 3 == 2))
+            if i < len(names):
+                method = names[i]
+            else:
+                cls = rnd.choice(["quasi", "quasi", "lbfgsb", "newton", "newton", "minuit"])
+                method = rnd.choice([m for m in names if METHODS[m] == cls])
         cls = METHODS[method]
         vm = S.build_vm(spec)
         fcn = S.SynthFCN(vm, spec["nll_seed"], spec["gauss"], centre=spec.get("centre"))
@@ -459,8 +522,8 @@ def correspond(ctx, res):
         # after an abort except_result reports fcn.cached_nll: the NLL of the last evaluation
         fval = float(fcn.cached_nll) if abort else sc.fval
         ora = [b01(abort), b01(sc.has_hess_inv), b01(sc.success), C.f2h(fval), str(len(sc.x))] + [C.f2h(v) for v in sc.x]
-        line = ["C08", "fit", b01(variant["fixSame"]), b01(variant["fixStd"]), b01(spec["polar"]),
-                b01(fix["lbfgsb"]), b01(fix["newtonRm"]), b01(fix["hessOpt"]), b01(fix["minuitSet"]), b01(fix["exceptRm"]),
+        line = ["C08", "fitv", b01(variant["fixSame"]), b01(variant["fixStd"]), b01(variant["stdFree"]), b01(variant["boundHead"]), b01(spec["polar"]),
+                b01(fix["lbfgsb"]), b01(fix["newtonRm"]), b01(fix["hessOpt"]), b01(fix["minuitSet"]), b01(fix["exceptRm"]), b01(fix["stdBounded"]),
                 cls, b01(stdc), "|"] + setup_tokens(spec) + ["|"] + bt + ["|"] + ora + ["|"] + ev
         lines.append(" ".join(line))
         cases.append((i, spec, method, kw, sc, before, after, kind, r))
@@ -478,11 +541,13 @@ def correspond(ctx, res):
             why = compare_dump(before, parse_dump(d0))
             if why:
                 why = "state before the fit: " + why
-            elif sc.bnd_during is not None and eff_bnd(sc.bnd_during, spec) != eff_bnd(parse_dump(dm)["bnd"], spec):
+            elif sc.bnd_during is not None and eff_bnd(sc.bnd_during, spec, before["same"], variant["boundHead"]) != eff_bnd(parse_dump(dm)["bnd"], spec, before["same"], variant["boundHead"]):
                 why = "names with a bound transform in force while the minimiser runs (vm.bnd_dic keys, fully open entries aside): impl %r model %r" % (
-                    eff_bnd(sc.bnd_during, spec), eff_bnd(parse_dump(dm)["bnd"], spec))
-            elif METHODS[method] == "minuit" and ctx.fix["minuitBnd"] and sorted(sc.seen_limits or {}) != sorted(t for t in before["trainable"] if t in spec["bounds"]):
-                why = "limits handed to Minuit: impl %r, declared for free names %r" % (sorted(sc.seen_limits or {}), sorted(t for t in before["trainable"] if t in spec["bounds"]))
+                    eff_bnd(sc.bnd_during, spec, before["same"], variant["boundHead"]), eff_bnd(parse_dump(dm)["bnd"], spec, before["same"], variant["boundHead"]))
+            elif METHODS[method] == "minuit" and ctx.fix["minuitBnd"] and sorted(sc.seen_limits or {}) != sorted(
+                    t for t in before["trainable"] if t in route_bounds(spec["bounds"], before["same"], variant["boundHead"])):
+                why = "limits handed to Minuit: impl %r, declared for free names %r" % (sorted(sc.seen_limits or {}), sorted(
+                    t for t in before["trainable"] if t in route_bounds(spec["bounds"], before["same"], variant["boundHead"])))
             else:
                 why = compare_dump(after, parse_dump(d1))
                 if why:
@@ -522,6 +587,7 @@ def correspond(ctx, res):
         "disagreements": ndis,
         "fix_flags_observed": fix,
         "vars_variant": variant,
+        "repair_scenarios_in_correspondence": len(special),
     })
     res.samples += [{"method": c[2], "spec_vars": [v["name"] for v in c[1]["vars"]], "bounds": c[1]["bounds"], "outcome": c[7]} for c in cases[:3]]
     if ndis:
@@ -647,6 +713,15 @@ def ulp_slack(v):
     return 4 * math.ulp(max(1.0, abs(v)))
 
 
+def std_explains(n, c, before, state):
+    """is the change of the FIXED part n of the polar complex parameter c what the polar standardisation does
+    (r -> |r|, phi -> phi + pi, phi wrapped by multiples of 2 pi; the other part may be free and moved by the fit)?"""
+    if n == c + "r":
+        return abs(abs(state[n]) - abs(before[n])) <= 1e-12 * max(1.0, abs(before[n]))
+    d = (state[n] - before[n]) / math.pi
+    return abs(d - round(d)) <= 1e-9 * max(1.0, abs(d))
+
+
 def check_fit(spec, vm, fcn, method, opts, before, start_nll, kind, r, leftover):
     """the clauses of the property after one fit; -> list of (key, what)"""
     import c08_synth as S
@@ -709,8 +784,10 @@ def check_fit(spec, vm, fcn, method, opts, before, start_nll, kind, r, leftover)
                 c = cparts[n][0]
                 z0 = before[c + "r"] * complex(math.cos(before[c + "i"]), math.sin(before[c + "i"]))
                 z1 = state[c + "r"] * complex(math.cos(state[c + "i"]), math.sin(state[c + "i"]))
-                if abs(z0 - z1) <= 1e-12 * max(1.0, abs(z0)):
-                    fails.append(("standard_complex:fixed-polar-restandardised", "fixed parameter %s changed from %r to %r by the fit (same complex value, standard_complex)" % (n, before[n], state[n])))
+                both_fixed = id(vm.variables[c + "r"]) not in free_objs and id(vm.variables[c + "i"]) not in free_objs
+                if abs(z0 - z1) <= 1e-12 * max(1.0, abs(z0)) or (not both_fixed and std_explains(n, c, before, state)):
+                    fails.append(("standard_complex:fixed-polar-restandardised", "fixed parameter %s changed from %r to %r by the fit (%s, standard_complex)" % (
+                        n, before[n], state[n], "same complex value" if both_fixed else "the fixed part of a polar parameter whose other part is free: sign / phase + k pi")))
                     continue
             fails.append(("%s:fixed-changed" % site, "fixed parameter %s changed from %r to %r" % (n, before[n], state[n])))
     # 5. tied parameters equal
@@ -848,20 +925,50 @@ def run_scripted(spec, method, script_d, stdc=True):
     if bad:
         fails.append(("%s:params-vs-state" % site, "scripted minimiser: FitResult.params[%r] = %r but the model holds %r" % bad[0]))
     cparts = {c + t for c, pol in vm.complex_vars.items() for t in "ri"}
+    polar_parts = {c + t: c for c, pol in vm.complex_vars.items() if pol for t in "ri"}
+    free_objs0 = {id(vm.variables[t]) for t in vm.trainable_vars}
+    # bounded parameters inside their bounds for ANY answer, where the library itself promises it (bound transforms:
+    # BFGS family and Newton family) - parts of polar parameters and names tied to the free name included
+    if cls in ("quasi", "newton") and not bad:
+        for n, (lo, hi) in bounds.items():
+            if n not in state or id(vm.variables[n]) not in free_objs0:
+                continue
+            v = state[n]
+            if (lo is not None and v < lo - ulp_slack(lo)) or (hi is not None and v > hi + ulp_slack(hi)):
+                if n not in vm.trainable_vars:
+                    fails.append(("set_bound:tied-follower:out-of-bounds", "scripted minimiser: %s = %r outside its bounds (%r, %r): the bound is registered under the name of a tie-group member that is not the group's free name" % (n, v, lo, hi)))
+                elif n in polar_parts and stdc and cls == "quasi":
+                    fails.append(("standard_complex:bounded-part-out-of-bounds", "scripted minimiser: %s = %r outside (%r, %r) after the fit (polar standardisation ignores the removed bounds)" % (n, v, lo, hi)))
+                else:
+                    fails.append(("%s:out-of-bounds" % site, "scripted minimiser: %s = %r outside its bounds (%r, %r)" % (n, v, lo, hi)))
     for t, x in zip(vm.trainable_vars, sc.x):
         if bad:
             break  # the result does not describe the model state at all (reported above)
         if t in cparts and stdc and cls in ("quasi", "lbfgsb"):
             continue  # polar standardisation may rewrite components
-        want = x
-        if cls in ("quasi", "newton") and t in bounds:
-            want = Bound(*bounds[t]).get_x2y(x)
-        if not close(state[t], want):
-            fails.append(("%s:state-is-not-the-answer" % site, "scripted minimiser answers %s = %r (stored value should be %r) but the model holds %r" % (t, x, want, state[t])))
+        wants = [x]
+        if cls in ("quasi", "newton"):
+            # the bound declared under t itself, or (tree after fix_C08_set_bound_free_name.diff) under a name tied to t;
+            # whether a follower's bound is in force is judged by the out-of-bounds clause above, not here
+            mates = [n for n in bounds if n != t and n in vm.variables and vm.variables[n] is vm.variables[t]]
+            if t in bounds:
+                wants = [Bound(*bounds[t]).get_x2y(x)]
+            wants += [Bound(*bounds[n]).get_x2y(x) for n in mates]
+        if not any(close(state[t], w) for w in wants):
+            fails.append(("%s:state-is-not-the-answer" % site, "scripted minimiser answers %s = %r (stored value should be %s) but the model holds %r" % (t, x, " or ".join(repr(w) for w in wants), state[t])))
             break
     free_objs = {id(vm.variables[t]) for t in vm.trainable_vars}
     for n in state:
-        if id(vm.variables[n]) not in free_objs and n not in cparts and state[n] != before[n]:
+        if id(vm.variables[n]) not in free_objs and state[n] != before[n]:
+            if n in polar_parts:
+                c = polar_parts[n]
+                z0 = before[c + "r"] * complex(math.cos(before[c + "i"]), math.sin(before[c + "i"]))
+                z1 = state[c + "r"] * complex(math.cos(state[c + "i"]), math.sin(state[c + "i"]))
+                both_fixed = id(vm.variables[c + "r"]) not in free_objs and id(vm.variables[c + "i"]) not in free_objs
+                if abs(z0 - z1) <= 1e-12 * max(1.0, abs(z0)) or (not both_fixed and std_explains(n, c, before, state)):
+                    fails.append(("standard_complex:fixed-polar-restandardised", "scripted minimiser: fixed parameter %s changed from %r to %r by the fit (%s, standard_complex)" % (
+                        n, before[n], state[n], "same complex value" if both_fixed else "the fixed part of a polar parameter whose other part is free: sign / phase + k pi")))
+                    continue
             fails.append(("%s:fixed-changed" % site, "fixed parameter %s changed from %r to %r" % (n, before[n], state[n])))
     for g in tie_classes(spec):
         if len({state[n] for n in g if n in state}) > 1:
@@ -886,6 +993,16 @@ def scripted_cases(ctx):
             if not sc.evals:
                 sc.evals = [[round(rnd.uniform(-2, 2), 3) for _ in range(ntr)]]
             out.append((spec, m, {"evals": sc.evals, "x": sc.x, "fval": sc.fval, "success": sc.success, "has_hess_inv": m in HAS_HESS_INV}))
+    # the scenarios of the three repairs (fixed polar parameters, bounded parts, bounds named on tie followers) with
+    # seeded arbitrary answers, negative radii and phases far outside (-pi, pi) included
+    import c08_synth as S
+    for spec in special_corr_specs():
+        ntr = len(S.build_vm(spec).trainable_vars)
+        for m in ["BFGS", "Newton-CG", "L-BFGS-B", "iminuit"] + ([] if ctx.quick else ["CG", "trust-exact", "test"]):
+            for rep in range(2 if ctx.quick else 6):
+                sc = gen_script(rnd, spec, m, ntr)
+                sc.x = [round(rnd.uniform(-3.0, 3.0), 3) if rnd.random() < 0.7 else rnd.choice([-1.0, 7.5, -7.5, 0.0]) for _ in range(ntr)]
+                out.append((spec, m, {"evals": sc.evals, "x": sc.x, "fval": sc.fval, "success": sc.success, "has_hess_inv": m in HAS_HESS_INV}))
     return out
 
 
@@ -999,6 +1116,10 @@ def synth_cases(ctx):
             cases.append(("neg-r-tie", spec, _one(m, **o), False))
     for key, (spec, seq, linear) in KNOWN_INPUTS.items():  # the deterministic corpus of the listed findings
         cases.append(("corpus", spec, seq, linear))
+    # the scenarios of the three standard_complex / set_bound repairs with the real minimisers, every branch
+    for spec in special_corr_specs():
+        for m, o in ([("BFGS", {}), ("L-BFGS-B", {}), ("Newton-CG", {}), ("iminuit", {})] + ([] if ctx.quick else [("CG", {}), ("trust-exact", {}), ("BFGS", {"maxiter": 1})])):
+            cases.append(("repairs", spec, _one(m, **o), False))
     if not ctx.quick:
         for si in range(6):
             spec = gen_spec(rnd, wild=True)
@@ -1327,7 +1448,7 @@ def replay(ctx, payload):
 
 
 MANIFEST = {
-    "text": "Lean theorems about Fit.fit, the model of the bookkeeping of fit_scipy / fit_newton_cg / fit_minuit_v2 / except_result around an ORACLE minimiser (arbitrary evaluations, arbitrary answer), built on the C16 VarsManager state machine, for every value arithmetic, every state satisfying the C16 invariant, every bound set and every oracle: the stored value of every free parameter is the answer mapped through its bound transform, FitResult.params is what the model holds, fixed parameters are untouched, tied names stay on one object, vm.bnd_dic is empty again, values of bounded parameters lie inside their bounds (over the reals); per branch either this statement (patched variant) or its refutation on a concrete witness plus the part that still holds (unchanged tree); loading a saved result into a fresh model reproduces every stored value. Each Fix flag is observed on the real code in every run. C08b: the ONE minimiser the library ships itself (fit_scipy(method='test') -> fit_improve.minimize -> fmin_bfgs_f) is inside the Lean model (templates/FitImprove.lean.in, one text for R and Float): Cached_FG (cache keyed on x, fun/grad/__call__, both NaN branches as they are), Seq, line_search_nonmonote, the outer loop of fmin_bfgs_f as a state machine with its three exits and the OptimizeResult; line_search_wolfe2/_zoom and np.linalg.inv are oracles. Proved for every dimension, objective, start point, gtol, M, maxiter, inverse oracle, callback and every line-search answer sequence: result_point_consistent (s.fun = f(s.x), s.jac = grad f(s.x) on every exit, given the line-search contract new_fval = f(xk+alpha pk), gfkp1 = grad f(xk+alpha pk)); iteration_bound / exit_bookkeeping (at most maxiter bodies, nit = index of the last body, status in {0,1,2}, success <=> status 0 => |jac|_inf <= gtol); window_invariant and nonmonotone_bound (fk is in the window of the last <= M values, an accepted value that passed either test of the search is <= window maximum + c1*alpha*<gk,pk>, nothing more); fun_le_start_of_armijo (s.fun <= f(x0) IF every search returns a step not above the window maximum); fun_above_start_witness (kernel-checked: on the unchanged tree s.fun <= f(x0) does NOT follow: f = 2x^2, one failed line search, s.fun = 18 > 2; replayed on the real fmin_bfgs_f in every run) and fun_le_start_fixed (after fix_fit_improve_best_point.diff it holds for EVERY objective and line search); cache_invariant, call_is_function_of_point, cached_grad_is_grad_of_x (Cached_FG never hands out the value of another point); nonmonote_found / nonmonote_notfound_refreshed / nonmonote_notfound_stale_witness (the fallback search keeps the contract when it finds a step, breaks it on its 'not found' exit on the unchanged tree).",
-    "note": "Proved for any optimiser answer: the bookkeeping (C08); for the library's own minimiser (C08b): consistency of the returned point, iteration/exit bookkeeping, the non-monotone acceptance bound, the cache. Validated only: for scipy / iminuit min_nll = NLL(params), min_nll <= NLL(start), bounds handed to L-BFGS-B / Minuit limits, convergence; for method 'test' the contract and the Armijo inequalities of line_search_wolfe2 / scalar_search_wolfe2 / _zoom (not modelled: checked on every answer of the real line search the harness records), np.linalg.inv, IEEE vs real arithmetic (NaN propagation is executed in the Float instance, the theorems are over R), convergence. Correspondence: scripted minimiser through the real fit_scipy vs Fit.fit (70 quick / 600 thorough cases over all method names); the real fit_improve.minimize with its real line search on quadratics / Rosenbrock / cosine sums / an L1 objective / NaN-gradient objectives / harness-made line-search failures vs FitImproveF.fminBfgs fed with the recorded line-search and inverse answers (every line-search argument, Bk, all result fields, 1e-12), line_search_nonmonote and Cached_FG op sequences directly. Search: real scipy/iminuit/own minimiser on a synthetic FCN over a real VarsManager (all method names incl. 'test', maxiter 0/1/5/default, two fits in a row, jac=False, check_grad, improve=True, LargeNumberError, an NLL with kinks) and ConfigLoader.fit on a 2-chain model incl. save_as / save_params into a fresh ConfigLoader; method='root' (PyROOT absent: must fail before touching the model). Known findings of C08b: method 'test' can return NaN parameters / NaN min_nll (fix_fit_improve_best_point.diff), method 'test' with improve=True raises ValueError (fix_fit_improve_stage_own_minimiser.diff).",
+    "text": "C08c (repairs of the three standard_complex / set_bound findings, variant flags observed on the tree): fixed_untouched_by_fit_{quasi,lbfgsb,newton,minuit} (after fix_C08_standard_complex_free_only.diff EVERY parameter without a free name - parts of polar complex parameters included - reads after the fit what it read before, for every minimiser answer), answer_kept_if_guarded / bounded_inside_after_standardisation (over R: in the state fit_scipy RETURNS, after remove_bound and standard_complex(bounded=bounds_dict), every bounded free parameter whose object standard_complex must skip lies inside its bounds; guarded_of_bounded_part: after fix_C08_standard_complex_bounded.diff a bounded part of a polar parameter is such an object), follower_bound_applied(_tied) (after fix_C08_set_bound_free_name.diff a bound named on ANY member of a tie group is registered under the group's free name and the member reads x2y(answer)), with kernel-decided witnesses that replay the three findings on the as-is variant and show the repaired values. Lean theorems about Fit.fit, the model of the bookkeeping of fit_scipy / fit_newton_cg / fit_minuit_v2 / except_result around an ORACLE minimiser (arbitrary evaluations, arbitrary answer), built on the C16 VarsManager state machine, for every value arithmetic, every state satisfying the C16 invariant, every bound set and every oracle: the stored value of every free parameter is the answer mapped through its bound transform, FitResult.params is what the model holds, fixed parameters are untouched, tied names stay on one object, vm.bnd_dic is empty again, values of bounded parameters lie inside their bounds (over the reals); per branch either this statement (patched variant) or its refutation on a concrete witness plus the part that still holds (unchanged tree); loading a saved result into a fresh model reproduces every stored value. Each Fix flag is observed on the real code in every run. C08b: the ONE minimiser the library ships itself (fit_scipy(method='test') -> fit_improve.minimize -> fmin_bfgs_f) is inside the Lean model (templates/FitImprove.lean.in, one text for R and Float): Cached_FG (cache keyed on x, fun/grad/__call__, both NaN branches as they are), Seq, line_search_nonmonote, the outer loop of fmin_bfgs_f as a state machine with its three exits and the OptimizeResult; line_search_wolfe2/_zoom and np.linalg.inv are oracles. Proved for every dimension, objective, start point, gtol, M, maxiter, inverse oracle, callback and every line-search answer sequence: result_point_consistent (s.fun = f(s.x), s.jac = grad f(s.x) on every exit, given the line-search contract new_fval = f(xk+alpha pk), gfkp1 = grad f(xk+alpha pk)); iteration_bound / exit_bookkeeping (at most maxiter bodies, nit = index of the last body, status in {0,1,2}, success <=> status 0 => |jac|_inf <= gtol); window_invariant and nonmonotone_bound (fk is in the window of the last <= M values, an accepted value that passed either test of the search is <= window maximum + c1*alpha*<gk,pk>, nothing more); fun_le_start_of_armijo (s.fun <= f(x0) IF every search returns a step not above the window maximum); fun_above_start_witness (kernel-checked: on the unchanged tree s.fun <= f(x0) does NOT follow: f = 2x^2, one failed line search, s.fun = 18 > 2; replayed on the real fmin_bfgs_f in every run) and fun_le_start_fixed (after fix_fit_improve_best_point.diff it holds for EVERY objective and line search); cache_invariant, call_is_function_of_point, cached_grad_is_grad_of_x (Cached_FG never hands out the value of another point); nonmonote_found / nonmonote_notfound_refreshed / nonmonote_notfound_stale_witness (the fallback search keeps the contract when it finds a step, breaks it on its 'not found' exit on the unchanged tree).",
+    "note": "The model follows the tree: Vars.Cfg.stdFree / boundHead and Fit.Fix.stdBounded are probed on the real VarsManager / fit_scipy in every run (C08 and C16), so the check is quiet on the tree as it is (three KNOWN-FINDING lines) and on a tree with the three fix_C08_*.diff patches (no such line); 35 (quick) scenarios of the repairs (fixed / partly fixed polar parameters, bounded radius / phase, bounds on followers of real ties and shared radii, conflicting bounds on head and follower) run through every branch in the correspondence, the scripted-answer search and the real-minimiser search. Proved for any optimiser answer: the bookkeeping (C08); for the library's own minimiser (C08b): consistency of the returned point, iteration/exit bookkeeping, the non-monotone acceptance bound, the cache. Validated only: for scipy / iminuit min_nll = NLL(params), min_nll <= NLL(start), bounds handed to L-BFGS-B / Minuit limits, convergence; for method 'test' the contract and the Armijo inequalities of line_search_wolfe2 / scalar_search_wolfe2 / _zoom (not modelled: checked on every answer of the real line search the harness records), np.linalg.inv, IEEE vs real arithmetic (NaN propagation is executed in the Float instance, the theorems are over R), convergence. Correspondence: scripted minimiser through the real fit_scipy vs Fit.fit (70 quick / 600 thorough cases over all method names); the real fit_improve.minimize with its real line search on quadratics / Rosenbrock / cosine sums / an L1 objective / NaN-gradient objectives / harness-made line-search failures vs FitImproveF.fminBfgs fed with the recorded line-search and inverse answers (every line-search argument, Bk, all result fields, 1e-12), line_search_nonmonote and Cached_FG op sequences directly. Search: real scipy/iminuit/own minimiser on a synthetic FCN over a real VarsManager (all method names incl. 'test', maxiter 0/1/5/default, two fits in a row, jac=False, check_grad, improve=True, LargeNumberError, an NLL with kinks) and ConfigLoader.fit on a 2-chain model incl. save_as / save_params into a fresh ConfigLoader; method='root' (PyROOT absent: must fail before touching the model). Known findings of C08b: method 'test' can return NaN parameters / NaN min_nll (fix_fit_improve_best_point.diff), method 'test' with improve=True raises ValueError (fix_fit_improve_stage_own_minimiser.diff).",
     "technique": "Lean 4 proof over an oracle-parameterised state-machine model (bookkeeping; the library's own BFGS with the line search as oracle, one template for R and Float) + differential correspondence with the real fit code (scripted oracle; recorded line-search answers) + property search with the real minimisers",
 }
